@@ -44,10 +44,12 @@ def handleTamper09 (l : Line) : List Verdict :=
     let status ← l.nat? "status"
     let auth ← l.bool? "authenticated"
     let genuine ← l.bool? "genuine"
-    let okStatus := if ep == "/some/page" then status == 200 else if ep == "/oauth2/logout/local" then status == 204 || status == 500 || status == 307 else status == 401
+    -- the store is healthy in this driver: a manipulated cookie / store value is "no valid session" - proxied without token, 401 on the session endpoints,
+    -- and the logouts simply find nothing to log out (204 / 302 to the provider); any 5xx is a crash on attacker-controlled input
+    let okStatus := if ep == "/some/page" then status == 200 else if ep == "/oauth2/logout/local" then status == 204 else if ep == "/oauth2/logout" then status == 302 else status == 401
     let viol : List (String × String) :=
       (if !genuine && auth then [("C09.accepted_tampered." ++ variant, s!"{ep}: request with a manipulated cookie / store value was authenticated")] else []) ++
-      (if !genuine && status ≥ 500 && ep != "/oauth2/logout/local" then [("C09.crash_on_tampered", s!"{ep} answered {status} for {variant}")] else []) ++
+      (if !genuine && status ≥ 500 then [("C09.crash_on_tampered", s!"{ep} answered {status} for {variant}")] else []) ++
       (if !genuine && !okStatus && status < 500 && status != 307 then [("C09.type_confusion." ++ variant, s!"{ep} answered {status}")] else []) ++
       (if genuine && ep == "/some/page" && !auth then [("C01.rejected_valid_session", "the untampered cookie was not authenticated")] else [])
     pure (verdictsOf [] viol)
